@@ -52,3 +52,14 @@ pub fn produce() -> rrtk::Reference<Foo> {
 pub fn conv_expr() -> rrtk::Reference<dyn Tr> {
     rrtk::to_dyn!(Tr, produce())
 }
+/// The lock-carrying static-making macros (they exist only when rrtk has `std`; built with the witness feature `lockstatics`).
+#[cfg(feature = "lockstatics")]
+pub mod stat_locks {
+    use rrtk::Reference;
+    pub fn make_rw() -> Reference<u8> {
+        rrtk::static_rw_lock_reference!(u8, 5)
+    }
+    pub fn make_mutex() -> Reference<u8> {
+        rrtk::static_mutex_reference!(u8, 5)
+    }
+}
